@@ -1,4 +1,5 @@
 import ServiceModel.Proofs.Reachable
+import ServiceModel.Proofs.CtxOrigin
 /-!
 # C10 — Repeated invocations keep their cadence and respect their total (state part)
 -/
@@ -80,5 +81,13 @@ theorem no_batch_beyond_total (s : State) (c : CtxId) (x : Ctx) (hq : (s.height,
   refine ⟨?_, rfl⟩
   show Map.get (Map.del s.ctxs c) c = none
   exact Map.get_del_same _ _
+
+/-- Over every history: a repeated context with a positive total never has had more batches (issued or skipped) than
+    that total — an invariant of all reachable states. An update can lower the total only down to the number of
+    batches already had (`updateK` rejects a positive total below the counter), so this is the bound "by the largest
+    total ever in force" at every moment. -/
+theorem batches_never_exceed_total (hc : CfgOK cfg p) {s : State} (hr : Reachable cfg p h0 t0 s)
+    (c : CtxId) (x : Ctx) (hx : Map.get s.ctxs c = some x) (hrep : x.rep = true) (hpos : 0 < x.total) :
+    (x.batch : Int) ≤ x.total := totBounded hc hr c x hx hrep hpos
 
 end SM.C10
